@@ -165,8 +165,9 @@ pub fn project(files : &BTreeMap<String, VFileData>, dirs : &BTreeSet<String>, f
             "ok"
         },
     };
+    let nodir : Vec<String> = ord.iter().filter(|p| match p.rfind('/') { Some(i) => !dirs.contains(&p[..i]), None => false }).cloned().collect();
     json!({"ws" : ws, "cache" : cache, "hist" : hist, "fstab" : fstab,
            "rdir" : {"root" : dirs.contains(dir), "cache" : dirs.contains(&format!("{}/cache", dir)), "hist" : dirs.contains(&format!("{}/history", dir)),
-                     "tab" : tab, "htorn" : htorn},
+                     "tab" : tab, "htorn" : htorn, "nodir" : nodir},
            "other" : other})
 }
